@@ -107,7 +107,7 @@ def main(ctx, args):
     quick = ctx.tier == "quick"
     n = 2000 if quick else 50000
     n_leaky = 250 if quick else 500      # programs of the known leaking classes grow without bound (and so does the judge's store): the long run is kept for the others
-    plan = [("balanced", 400), ("leaky", 160), ("mixed", 160)] if quick else [("balanced", 1500), ("leaky", 500), ("mixed", 500)]
+    plan = [("balanced", 400), ("leaky", 160), ("mixed", 160), ("boxes", 200)] if quick else [("balanced", 1500), ("leaky", 500), ("mixed", 500), ("boxes", 800)]
     if args.replay:
         r = json.load(open(args.replay))
         cases = [{"id": "replay", "src": r["src"], "scheduler": r.get("scheduler", False), "tags": r.get("tags", []),
@@ -181,6 +181,8 @@ def main(ctx, args):
                                  % (f.get("first"), f.get("unbalanced"), f.get("judged"), f.get("delta"), f.get("story"), f.get("atN"), f.get("at2N")), r))
         elif v == "unsafe":
             failures.append((c, "use-after-release / illegal refcount operation: " + r["illegal"], r))
+        elif v == "crash" and c.get("expect") == "runtime-panic":
+            stats["known_compile_panics"] += 1
         elif v == "crash":
             failures.append((c, "crash: " + r["crash"][:300], r))
         else:
